@@ -137,7 +137,7 @@ def load_known():
 
 def match_known(prop, signature, known):
     for entry in known:
-        if entry.get("property") != prop or entry.get("status") != "open":
+        if prop not in entry.get("properties", [entry.get("property")]) or entry.get("status") != "open":
             continue
         m = entry.get("match", {})
         if m and all(signature.get(k) == v for k, v in m.items()):
